@@ -1,12 +1,8 @@
 #!/bin/bash
-# usage: run_on_patch.sh <patch.diff> [Cxx ...]   -- applies the patch to /repo, runs the checks (all by default), reverts.
-# Prints one summary line per property that does not hold, plus the first lines of each violation.
+# usage: run_on_patch.sh <patch.diff> [Cxx ...]
+# Analyses /repo with the patch applied IN MEMORY (packages overlay); /repo is not modified.
 cd /verif && . ./env.sh
 p="$(realpath "$1")"; shift
 ids="${*:-all}"
-if ! git -C /repo apply --check "$p" 2>/dev/null; then echo "PATCH DOES NOT APPLY: $p"; exit 2; fi
-git -C /repo apply "$p"
-./bin/dvcheck check --no-evidence $ids 2>&1 | grep -E "^VIOLATION|^  (violated|undecided)" | cut -c1-300
-rc=${PIPESTATUS[0]}
-git -C /repo checkout -- . ; git -C /repo clean -fdq -- go >/dev/null 2>&1
-exit $rc
+./bin/dvcheck check --patch "$p" $ids 2>&1 | grep -E "^VIOLATION|^  (violated|undecided)|^patch:" | cut -c1-300
+exit ${PIPESTATUS[0]}
